@@ -31,7 +31,7 @@ def cases(tier, seed):
     rng = np.random.default_rng([seed, 1818])
     n = 110 if tier == "quick" else 12000
     for i in range(n):
-        fams = ["fine_patch", "refined"] if i % 5 == 4 else None  # high-resolution regional patches / locally refined closed meshes
+        fams = ["fine_patch", "refined", "sample"] if i % 5 == 4 else None  # high-resolution regional patches / locally refined closed meshes
         yield {"mesh": gen.random_mesh(rng, 150 if tier == "quick" else 900, families=fams), "dseed": int(rng.integers(0, 10**6)),
                "source": ["topology", "topology", "topology", "centres_xyz_metres", "centres_xyz_and_lonlat_metres", "mpas"][int(rng.integers(0, 6))]}
 
